@@ -65,7 +65,7 @@ func (rr *DefaultRelationsResolver) NewSchema(schema Schema, states S) {
 		}
 	}
 
-	sorted, err := g.TopologicalSort()
+	sorted, err := g.TopologicalSort(rr.Index)
 	if err != nil {
 		// cycle, keep unsorted
 		rr.Machine.log(LogChanges, "[resolver] %s: %s for %s",
@@ -166,8 +166,8 @@ func (rr *DefaultRelationsResolver) NewAutoMutation() (*Mutation, S) {
 	m := t.Machine
 	var toAdd S
 
-	// check all Auto states
-	for s := range m.schema {
+	// check all Auto states (in the index order, not the map order)
+	for _, s := range rr.Index {
 		if !m.schema[s].Auto {
 			continue
 		}
@@ -507,7 +507,8 @@ func (g *graph) AddEdge(src, dest string) {
 }
 
 // TopologicalSort performs a topological sort on the graph.
-func (g *graph) TopologicalSort() ([]string, error) {
+// The nodes are visited in the passed order, to keep the result deterministic.
+func (g *graph) TopologicalSort(order []string) ([]string, error) {
 	visited := make(map[string]bool)
 	var stack []string
 	tempMarked := make(map[string]bool)
@@ -532,7 +533,10 @@ func (g *graph) TopologicalSort() ([]string, error) {
 		return nil
 	}
 
-	for node := range g.vertices {
+	for _, node := range order {
+		if _, ok := g.vertices[node]; !ok {
+			continue
+		}
 		if !visited[node] {
 			if err := visit(node); err != nil {
 				return nil, err
